@@ -614,13 +614,13 @@ def run(ctx):
         if res is not None:
             ctx.counterexample(c, *res)
     # chains: a statistical TEST of invariance (fixed keys, 6 sigma)
-    chains = [dict(sub="chain", sampler="hmc", target="gauss1", N=ctx.n(4000, 40000), num_steps=7, step_size=0.9, minv=0.25),
-              dict(sub="chain", sampler="nuts", target="gauss1", N=ctx.n(1000, 20000), depth=4, step_size=0.6)]
+    chains = [dict(sub="chain", sampler="hmc", target="gauss1", N=ctx.n(3000, 20000), num_steps=7, step_size=0.9, minv=0.25),
+              dict(sub="chain", sampler="nuts", target="gauss1", N=ctx.n(800, 8000), depth=4, step_size=0.6)]
     if not ctx.quick:
         for t in ("quartic1", "gauss2", "shifted1"):
-            chains.append(dict(sub="chain", sampler="hmc", target=t, N=40000, num_steps=6, step_size=0.25))
-            chains.append(dict(sub="chain", sampler="nuts", target=t, N=20000, depth=6, step_size=0.3))
-        chains.append(dict(sub="chain", sampler="nuts", target="quartic1", N=20000, depth=6, step_size=0.3, bias=False))
+            chains.append(dict(sub="chain", sampler="hmc", target=t, N=20000, num_steps=6, step_size=0.25))
+            chains.append(dict(sub="chain", sampler="nuts", target=t, N=6000, depth=5, step_size=0.3))
+        chains.append(dict(sub="chain", sampler="nuts", target="quartic1", N=6000, depth=5, step_size=0.3, bias=False))
     for c in chains:
         c["key"] = rng.randint(0, 2 ** 31 - 1)
         ctx.case(c, nontrivial=True)
